@@ -44,6 +44,7 @@ RULE = (
     "that failures land between the causing message and the wait), every message in its own try node with a drawn "
     "policy, faults aimed at a message of the plan. Non-trivial: a fault fired while the plan was at a yield (it had "
     "to be delivered). Distinct = canonical JSON."
+    ' Also plans that wait for a status group only after the close_run of the run it was created in; a wait that returns while a status of its group is still pending is a violation.'
 )
 ASSUMPTIONS = [
     "every status group is waited before the next checkpoint (well-formed plans)",
